@@ -4,6 +4,8 @@ Implementation entry points driven (real code from $VERIF_REPO/src):
   hd.seg.Segmentation(pixel_array=hd.Volume | aligned source stack) -> (file round trip) ->
       get_volume_geometry(), get_volume(...) incl. sub-volume arguments,
       hd.Image.from_dataset(seg).get_volume(...) (base-class path),
+  hd.Image.from_dataset(plain CT image: enhanced multi-frame with frames in any order / missing frames / with or
+      without SpacingBetweenSlices, or single-frame).get_volume_geometry(), .get_volume(...),
   tiled Segmentation / slide Image .get_volume(...), get_volume_geometry(),
   tiled Segmentation placed by the caller (hd.Volume in the SLIDE coordinate system, or
       plane_positions=[top left corner] (+ plane_orientation / pixel_measures)) relative to a
@@ -11,7 +13,9 @@ Implementation entry points driven (real code from $VERIF_REPO/src):
       get_volume, per-frame PlanePositionSlideSequence,
   volumes whose affine lives in a caller-owned buffer (dtype / memory layout / entry point)
       that the caller keeps using after the volume was constructed (histories),
-  hd.seg.create_segmentation_pyramid(...),
+  hd.seg.create_segmentation_pyramid(...) from one source + down-sampling factors, and (downsample_factors=None)
+      from several source images of one pyramid with one or with as many masks, and from one source image
+      with several masks,
   Image._standardize_slice_indices, Image._standardize_row_column_indices.
 Model: coq/theories/C03_Model.v; theorems: C03_Props.v.
 """
@@ -41,24 +45,34 @@ MODELLED = ('image.py _standardize_slice_indices, _standardize_row_column_indice
             '(Volume -> plane positions/orientation/measures, aligned sources, empty-plane omission, slice-spacing '
             'inference), Segmentation.get_volume / get_volume_geometry; volume.py _prepare_getitem_index (unit step), '
             'from_attributes; spatial.py get_volume_positions (both branches, distinct positions), '
-            'create_affine_matrix_from_attributes; seg/pyramid.py level sizes and spacings (single source); '
+            'create_affine_matrix_from_attributes; seg/pyramid.py level sizes and spacings (single source + factors; '
+            'several sources and / or several pixel arrays: order / count / shape guards incl. the tuple comparison '
+            'of pixel array shapes, which source a level is built from, copied vs scaled pixel spacing, origin); '
             'seg/sop.py tile_pixel_array branch with a caller supplied position (origin_preserved / locations '
             'preserved guards, which TotalPixelMatrixOriginSequence is recorded, refusals), '
             'spatial.py compute_tile_positions_per_frame + omission of empty tiles (per-frame positions). '
+            'plain (non-segmentation) CT images read through hd.Image go through the same model functions '
+            '(a `stored` record built from the frames the image holds, no spacing inference at construction). '
             'vol_hist cases are compared against the history-free model term (the model has value semantics: '
             'aliasing of caller-owned buffers, dtypes and memory layouts are outside the model)')
 STRATA = ['std_slice', 'std_slice_err', 'std_rc', 'std_rc_err', 'vol', 'vol_sub', 'vol_sub_err', 'src', 'src_irregular',
-          'tiled', 'tiled_err', 'pyramid', 'pyramid_err', 'tiled_place', 'tiled_place_err', 'vol_hist']
-NOT_EXECUTED = ['pyramids built from several source images (spacings copied from the sources)',
-                'several focal planes in tiled images',
+          'src_img',
+          'tiled', 'tiled_err', 'pyramid', 'pyramid_err', 'pyr_multi', 'pyr_multi_err', 'tiled_place',
+          'tiled_place_err', 'vol_hist']
+NOT_EXECUTED = ['several focal planes in tiled images',
+                'pyramids with sop_instance_uids / segment channels (rank 4) in the several-sources modes',
                 'get_volume with rtol/atol other than the defaults']
 RULE = ('std_*: exhaustive small cube of (start, end, n, as_indices) in all argument forms; vol: 48 signed axis '
         'permutations + rational oblique rotations x both handednesses x dyadic anisotropic spacings x positions x '
         'label maps with leading/interior/trailing empty slices x omit x segmentation type x channel/labelmap input x '
         'file round trip x Segmentation/Image API; vol_sub: every sub-volume argument form (1-based, 0-based, negative, '
         'None) in and out of range; src: aligned CT stacks in every slice order, with/without recorded spacing, '
-        'irregular stacks; tiled: slide images/segmentations, all in-plane orientations, regions; pyramid: factors x '
-        'mask ranks; tiled_place: every subset of {dx, dy, dz} non-zero between the caller\'s origin and the source\'s '
+        'irregular stacks; src_img: plain CT images (multi-frame in every frame order, missing frames, one frame, '
+        'single-frame instance; recorded spacing or none; allow_missing_positions on/off; sub-volume arguments); tiled: slide images/segmentations, all in-plane orientations, regions; pyramid: factors x '
+        'mask ranks; pyr_multi: 2-3 levels x (several sources + one mask | several sources + as many masks | one '
+        'source + several masks) x consistent / inconsistent source spacings x shared / per-level origins x mask '
+        'rank 2/3, malformed: order, equal sizes, count mismatch, shape mismatch at any level, single/single '
+        'without factors; tiled_place: every subset of {dx, dy, dz} non-zero between the caller\'s origin and the source\'s '
         '(each subset at least once with everything else aligned, for both entry points) x source with/without Z '
         'offset x same/other orientation, spacing, mask shape, tile size x Volume (both handednesses) / '
         'plane_positions entry x omit x TILED_FULL/SPARSE; vol_hist: entry point (Volume, VolumeGeometry.with_array, '
@@ -254,6 +268,35 @@ def _src_case(rng, irregular):
             'ss': None, 'se': None, 'rs': None, 're': None, 'cs': None, 'ce': None, 'as_idx': False}
 
 
+def _img_case(rng, irregular):
+    """A plain CT image (not a segmentation): enhanced multi-frame with frames on a line in any order, with or
+    without missing positions / recorded slice spacing, or a single-frame image; read through hd.Image."""
+    c = _src_case(rng, irregular)
+    c['form'] = 'multiframe'
+    if not irregular and rng.random() < 0.25:
+        # one plane only: single-frame image or one-frame multi-frame image
+        c['S'], c['order'] = 1, [0]
+        c['positions'], c['arr'] = c['positions'][:1], c['arr'][:1]
+        c['form'] = rng.choice(['single', 'multiframe'])
+        c['omit'] = False
+    c.update({'kind': 'src_irregular' if irregular else 'src_img', 'api': 'image', 'typ': 'LABELMAP',
+              'file_rt': False, 'allow_missing': rng.random() < 0.6, 'src_has_sbs': rng.random() < 0.5})
+    if not irregular and c['S'] > 1:
+        n0 = _stored_extent(c['arr'], c['omit'], c['order'])
+        if rng.random() < 0.5 and (c['src_has_sbs'] or not c['omit']):
+            c.update(_sub_args(rng, n0, c['R'], c['C'], bad=rng.random() < 0.2))
+    return c
+
+
+def _img_kept(c):
+    """(position, plane) of the frames the image holds: every plane, or (omit) the non-empty ones"""
+    pairs = list(zip(c['positions'], c['arr']))
+    if c['omit']:
+        ne = [(p, a) for p, a in pairs if any(any(r) for r in a)]
+        pairs = ne or pairs
+    return pairs
+
+
 _SLIDE_ORIENTS = []
 for a, b in itertools.permutations(range(2), 2):
     for sa in (1, -1):
@@ -308,7 +351,7 @@ def _tiled_case(rng, bad):
             if rng.random() < 0.5:
                 c[what + 's'] = rng.choice([n, n + 1, n + 3]) if as_idx else rng.choice([0, n + 1, n + 2])
             else:
-                c[what + 'e'] = rng.choice([n + 1, n + 2]) if as_idx else rng.choice([n + 2, n + 3])
+                c[what + 'e'] = rng.choice([n + 1, n + 2]) if as_idx else rng.choice([n + 2, n + 3, 0, 0])
     return c
 
 
@@ -339,6 +382,90 @@ def _pyr_case(rng, bad):
     return {'kind': 'pyramid_err' if bad else 'pyramid', 'R': R, 'C': C, 'th': th, 'tw': tw, 'rank': rank,
             'typ': typ, 'nseg': nseg, 'fs': [str(f) for f in fs], 'rowcos': _fs(rc), 'colcos': _fs(cc),
             'spr': str(_sp(rng)), 'spc': str(_sp(rng)), 'origin': _fs([_dy(rng, 0, 200), _dy(rng, 0, 200)]), 'M': M,
+            'srcz': rng.choice([None, None, str(_dy(rng, -40, 40, (1, 2, 4, 8)))])}
+
+
+def _pyr_multi_case(rng, bad):
+    """Pyramid built with downsample_factors=None: several source images of one pyramid and one or as many
+    masks, or one source image and several masks."""
+    nlev = rng.choice([2, 2, 3])
+    mode = rng.choice(['msrc_1pix', 'msrc_mpix', '1src_mpix'])
+    R, C = rng.randint(8, 30), rng.randint(8, 30)
+
+    def smaller(r, c):
+        return (rng.choice([max(1, r // 2), rng.randint(1, r - 1)]), rng.choice([max(1, c // 2), rng.randint(1, c - 1)]))
+    sizes = [(R, C)]
+    while len(sizes) < nlev:
+        r, c = sizes[-1]
+        if r < 2 or c < 2:
+            break
+        sizes.append(smaller(r, c))
+    nlev = len(sizes)
+    spr, spc = _sp(rng), _sp(rng)
+    consistent = rng.random() < 0.6
+    origin = [_dy(rng, 0, 200), _dy(rng, 0, 200)]
+    same_origin = rng.random() < 0.75
+    srcs = []
+    for k, (r, c) in enumerate(sizes):
+        if k == 0 or consistent:
+            a, b = spr * F(R, r), spc * F(C, c)
+        else:
+            a, b = _sp(rng), _sp(rng)
+        o = origin if (same_origin or k == 0) else [origin[0] + _dy(rng, -8, 8), origin[1] + _dy(rng, -8, 8)]
+        srcs.append({'R': r, 'C': c, 'spr': str(a), 'spc': str(b), 'origin': _fs(o)})
+    if mode == 'msrc_1pix':
+        pix = [list(sizes[0])]
+    elif mode == 'msrc_mpix':
+        pix = [list(x) for x in sizes]
+    else:
+        srcs = srcs[:1]
+        pix = [list(sizes[0])]
+        while len(pix) < nlev:
+            r, c = pix[-1]
+            if r < 2 or c < 2:
+                break
+            pix.append(list(smaller(r, c)))
+        if len(pix) < 2:
+            pix.append([max(1, pix[0][0] - 1), max(1, pix[0][1] - 1)])
+    quirk = False
+    what = None
+    if bad:
+        what = rng.choice(['order', 'equal', 'count', 'shape', 'pix_order', 'single'])
+        if what == 'order' and len(srcs) > 1:
+            i = rng.randrange(len(srcs) - 1)
+            srcs[i], srcs[i + 1] = srcs[i + 1], srcs[i]
+            if mode == 'msrc_mpix':
+                pix[i], pix[i + 1] = pix[i + 1], pix[i]
+        elif what == 'equal' and len(srcs) > 1:
+            # one dimension does not decrease
+            i = rng.randrange(1, len(srcs))
+            key = rng.choice(['R', 'C'])
+            srcs[i][key] = srcs[i - 1][key]
+            if mode == 'msrc_mpix':
+                pix[i] = [srcs[i]['R'], srcs[i]['C']]
+        elif what == 'count' and mode == 'msrc_mpix' and len(srcs) == 3:
+            pix = pix[:2]
+        elif what == 'shape':
+            i = rng.randrange(len(pix)) if mode == 'msrc_mpix' else 0
+            pix[i] = [pix[i][0] + rng.choice([0, 1]), pix[i][1] + 1]
+            if mode == '1src_mpix' or (i + 1 < len(pix)):
+                pass
+        elif what == 'pix_order' and mode == '1src_mpix':
+            i = rng.randrange(1, len(pix))
+            pix[i] = rng.choice([list(pix[i - 1]), [pix[i - 1][0] + 1, 1], [pix[i - 1][0], pix[i - 1][1] + 2]])
+        else:
+            what = 'single'
+            srcs, pix = srcs[:1], pix[:1]
+    elif mode == '1src_mpix' and rng.random() < 0.25:
+        # fewer rows but not fewer columns: outside the documented 'decreasing resolution', whatever happens
+        # the levels must still cover the extent of the source
+        i = rng.randrange(1, len(pix))
+        pix[i] = [pix[i][0], pix[i - 1][1] + rng.choice([0, 1, 3])]
+        quirk = True
+    rc, cc = rng.choice(_SLIDE_ORIENTS[:8])
+    return {'kind': 'pyr_multi_err' if bad else 'pyr_multi', 'mode': mode, 'srcs': srcs, 'pix': pix, 'what': what,
+            'quirk': quirk, 'rank': rng.choice([2, 3]), 'typ': rng.choice(['BINARY', 'LABELMAP']),
+            'th': rng.randint(2, 8), 'tw': rng.randint(2, 8), 'rowcos': _fs(rc), 'colcos': _fs(cc),
             'srcz': rng.choice([None, None, str(_dy(rng, -40, 40, (1, 2, 4, 8)))])}
 
 
@@ -527,6 +654,10 @@ def gen_cases(rng, tier):
         cases.append(_src_case(rng, False))
     for _ in range(nv // 4):
         cases.append(_src_case(rng, True))
+    for _ in range(nv // 2):
+        cases.append(_img_case(rng, False))
+    for _ in range(nv // 8):
+        cases.append(_img_case(rng, True))
     for _ in range(nv):
         cases.append(_tiled_case(rng, False))
     for _ in range(nv // 3):
@@ -535,6 +666,10 @@ def gen_cases(rng, tier):
         cases.append(_pyr_case(rng, False))
     for _ in range(nv // 6):
         cases.append(_pyr_case(rng, True))
+    for _ in range(nv // 3):
+        cases.append(_pyr_multi_case(rng, False))
+    for _ in range(nv // 8):
+        cases.append(_pyr_multi_case(rng, True))
     # ---- tiled segmentations placed by the caller ------------------------------------------------
     # every subset of differing origin coordinates, everything else aligned with the source, both entry points
     for combo in range(8):
@@ -599,6 +734,14 @@ def _build_seg(c, info=None):
     import numpy as np
     import highdicom as hd
     import synth
+    if c.get('form'):
+        # a plain CT image (not a segmentation) holding the given planes
+        kept = _img_kept(c)
+        return synth.ct_image_at([[_f(x) for x in p] for p, _ in kept], c['R'], c['C'],
+                                 [_f(x) for x in c['rowcos']] + [_f(x) for x in c['colcos']],
+                                 (_f(c['spr']), _f(c['spc'])), [a for _, a in kept],
+                                 spacing_between_slices=_f(c['sbs']) if c['src_has_sbs'] else None,
+                                 single=c['form'] == 'single')
     lab = np.array(c['arr'], dtype=np.uint8).reshape(c['S'], c['R'], c['C'])
     nseg, typ = c['nseg'], c['typ']
     if c['kind'].startswith('vol'):
@@ -900,6 +1043,39 @@ def run_impl(c):
                 v = obj.get_volume(**_kw(c))
                 return [list(v.spatial_shape), v.affine[:3].tolist(), None]
         return [_geom_out(g), catch(f)]
+    if k in ('pyr_multi', 'pyr_multi_err'):
+        rc, cc = [_f(x) for x in c['rowcos']], [_f(x) for x in c['colcos']]
+        srcs = []
+        for lv in c['srcs']:
+            sm = synth.sm_tiled(lv['R'], lv['C'], c['th'], c['tw'], tiled_full=True, samples=3,
+                                origin=(_f(lv['origin'][0]), _f(lv['origin'][1])),
+                                spacing=(_f(lv['spr']), _f(lv['spc'])), orientation=rc + cc)
+            if c.get('srcz') is not None:
+                sm.TotalPixelMatrixOriginSequence[0].ZOffsetInSlideCoordinateSystem = _f(c['srcz'])
+            if srcs:
+                for kw_ in ('SeriesInstanceUID', 'StudyInstanceUID', 'FrameOfReferenceUID', 'PyramidUID'):
+                    setattr(sm, kw_, getattr(srcs[0], kw_))
+            else:
+                sm.PyramidUID = hd.UID()
+            srcs.append(sm)
+        pix = []
+        for (r, cl) in c['pix']:
+            M = np.zeros((r, cl), np.uint8)
+            M[0, 0] = M[r - 1, cl - 1] = 1
+            pix.append(M if c['rank'] == 2 else M[None])
+        descs = [synth.seg_description(1)]
+
+        def f():
+            segs = hd.seg.create_segmentation_pyramid(srcs, pix, c['typ'], descs, hd.UID(), 1, 'm', 'mm', '1', 'sn')
+            out = []
+            for s in segs:
+                pm = s.SharedFunctionalGroupsSequence[0].PixelMeasuresSequence[0]
+                g = s.get_volume_geometry()
+                assert list(g.spatial_shape) == [1, s.TotalPixelMatrixRows, s.TotalPixelMatrixColumns]
+                out.append([int(s.TotalPixelMatrixRows), int(s.TotalPixelMatrixColumns),
+                            float(pm.PixelSpacing[0]), float(pm.PixelSpacing[1]), g.affine[:3].tolist()])
+            return out
+        return catch(f)
     if k in ('pyramid', 'pyramid_err'):
         sm = _build_sm(c)
         M = np.array(c['M'], np.uint8)
@@ -977,6 +1153,11 @@ def coq_term(c):
               f"{_planes(c['arr'])} {_b(c['omit'])})")
         run = 'run_stored_hist' if k == 'vol_hist' else 'run_stored'
         return f"({run} {_b(c['allow_missing'])} {st} {_args(c)})"
+    if k.startswith('src') and c.get('form'):
+        planes = '[' + '; '.join(f"({_v3(p)}, {zll(a)})" for p, a in _img_kept(c)) + ']'
+        st = (f"(Stored {_v3(c['rowcos'])} {_v3(c['colcos'])} {qlit(F(c['spr']))} {qlit(F(c['spc']))} "
+              f"{_optq(c['sbs'] if c['src_has_sbs'] else None)} {zlit(c['R'])} {zlit(c['C'])} {planes})")
+        return f"(run_stored {_b(c['allow_missing'])} {st} {_args(c)})"
     if k.startswith('src'):
         ps = '[' + '; '.join(_v3(p) for p in c['positions']) + ']'
         st = (f"(seg_from_sources {ps} {_v3(c['rowcos'])} {_v3(c['colcos'])} {qlit(F(c['spr']))} {qlit(F(c['spc']))} "
@@ -987,6 +1168,13 @@ def coq_term(c):
         pos = [c['origin'][0], c['origin'][1], c.get('srcz') or '0']
         return (f"(run_tiled {_b(c['api'] == 'seg')} {_v3(pos)} {_v3(c['rowcos'])} {_v3(c['colcos'])} "
                 f"{qlit(F(c['spr']))} {qlit(F(c['spc']))} None {zlit(c['R'])} {zlit(c['C'])} {zll(c['M'])} {_args(c)})")
+    if k in ('pyr_multi', 'pyr_multi_err'):
+        z = c.get('srcz') or '0'
+        srcs = '[' + '; '.join(
+            f"({zlit(lv['R'])}, {zlit(lv['C'])}, {qlit(F(lv['spr']))}, {qlit(F(lv['spc']))}, "
+            f"{_v3([lv['origin'][0], lv['origin'][1], z])})" for lv in c['srcs']) + ']'
+        pix = '[' + '; '.join(f"({zlit(r)}, {zlit(cl)})" for r, cl in c['pix']) + ']'
+        return f"(run_pyramid_multi {_v3(c['rowcos'])} {_v3(c['colcos'])} {srcs} {pix})"
     if k in ('pyramid', 'pyramid_err'):
         pos = [c['origin'][0], c['origin'][1], c.get('srcz') or '0']
         fs = '[' + '; '.join(qlit(F(x)) for x in c['fs']) + ']'
@@ -1222,6 +1410,8 @@ def oracle(c, out):
     if k in ('std_rc', 'std_rc_err'):
         rr = _doc_range(c['rs'], c['re'], c['rows'], c['ai'])
         cr = _doc_range(c['cs'], c['ce'], c['cols'], c['ai'])
+        if not c['ai'] and 0 in (c['rs'], c['re'], c['cs'], c['ce']) and not isinstance(out, Err):
+            return f'0 accepted as a one-based row / column number: {out}'
         if rr != 'out' and cr != 'out':
             if isinstance(out, Err):
                 return f'documented request refused: {out}'
@@ -1260,6 +1450,11 @@ def oracle(c, out):
                      [x for x in vout.items() if not vin.contains(*x)])[:3]
             return f'voxels moved or changed (first differences {moved})'
         n0 = _stored_extent(c['arr'], c['omit'], c.get('order'))
+        if c.get('form') and c['omit'] and not c['src_has_sbs']:
+            # a plain image with missing frames and no recorded slice spacing: the spacing (hence the number of
+            # slices) is whatever the smallest gap is; only the voxel positions (checked above) are determined
+            return None if (sub == full or all(c.get(x) is None for x in ('ss', 'se', 'rs', 're', 'cs', 'ce'))) \
+                else 'unexpected sub-volume request'
         if full[0] != [n0, c['R'], c['C']]:
             return f'volume shape {full[0]}, expected {[n0, c["R"], c["C"]]}'
         if isinstance(geo, Err) or geo is None:
@@ -1343,6 +1538,36 @@ def oracle(c, out):
         return None
     if k == 'pyramid_err':
         return None if isinstance(out, Err) else 'malformed down-sampling factors accepted'
+    if k == 'pyr_multi':
+        if isinstance(out, Err):
+            return None if c['quirk'] else f'valid pyramid request refused: {out}'
+        n = max(len(c['srcs']), len(c['pix']))
+        if len(out) != n:
+            return f'{len(out)} levels, expected {n}'
+        s0 = c['srcs'][0]
+        for lvl, (rl, cl, a, b, aff) in enumerate(out):
+            A = np.array(aff)
+            if len(c['srcs']) > 1:
+                sv = c['srcs'][lvl]
+                if (rl, cl) != (sv['R'], sv['C']):
+                    return f'level {lvl} has size {(rl, cl)}, its source image {(sv["R"], sv["C"])}'
+                if not (_close(a, _f(sv['spr']), 1e-9) and _close(b, _f(sv['spc']), 1e-9)):
+                    return f'level {lvl} records pixel spacing {(a, b)}, its source image {(sv["spr"], sv["spc"])}'
+            else:
+                sv = s0
+                if [rl, cl] != list(c['pix'][lvl]):
+                    return f'level {lvl} has size {(rl, cl)}, its mask {c["pix"][lvl]}'
+                if not (_close(rl * a, s0['R'] * _f(s0['spr']), 1e-9) and _close(cl * b, s0['C'] * _f(s0['spc']), 1e-9)):
+                    return (f'level {lvl} covers {rl * a} x {cl * b} mm, the source image covers '
+                            f'{s0["R"] * _f(s0["spr"])} x {s0["C"] * _f(s0["spc"])} mm')
+            org = [_f(sv['origin'][0]), _f(sv['origin'][1]), _f(c.get('srcz') or 0)]
+            if not all(_close(x, y) for x, y in zip(A[:, 3], org)):
+                return f'level {lvl}: origin {A[:, 3].tolist()} is not the origin {org} of its source image'
+            if not (_close(np.linalg.norm(A[:, 1]), a) and _close(np.linalg.norm(A[:, 2]), b)):
+                return f'level {lvl}: geometry spacing differs from recorded PixelSpacing'
+        return None
+    if k == 'pyr_multi_err':
+        return None if isinstance(out, Err) else f'malformed pyramid request ({c["what"]}) accepted'
     return f'unknown kind {k}'
 
 
@@ -1404,6 +1629,11 @@ def shrink(c):
                 yield dict(c, flip0=False)
             if c.get('api') == 'image':
                 yield dict(c, api='seg')
+    elif k.startswith('pyr_multi'):
+        if c['rank'] > 2:
+            yield dict(c, rank=2)
+        if c.get('srcz') is not None:
+            yield dict(c, srcz=None)
     elif k.startswith('pyramid'):
         if len(c['fs']) > 1:
             for i in range(len(c['fs'])):
